@@ -325,7 +325,7 @@ func TestProp_C07_Schedules(t *testing.T) {
 	}
 	budget := 60
 	if sim.Thorough() {
-		budget = 2000
+		budget = 1200
 	}
 	exhaustive := true
 	for vi, vp := range pairs {
@@ -358,7 +358,7 @@ func TestProp_C07_Schedules(t *testing.T) {
 						stack := [][]int{nil}
 						n := 0
 						for len(stack) > 0 {
-							if n >= budget || other == 1 && n >= 150 {
+							if n >= budget || other == 1 && n >= 100 {
 								// (the later start multiplies the schedules by the number of points it can happen at: sampled
 								// depth-first up to a bound of its own, so that the thorough tier stays within its time)
 								exhaustive = false
@@ -421,7 +421,7 @@ func TestProp_C07_Schedules(t *testing.T) {
 					continue
 				}
 				stack := [][]int{nil}
-				for n := 0; len(stack) > 0 && n < budget && n < 150; n++ {
+				for n := 0; len(stack) > 0 && n < budget && n < 100; n++ {
 					prefix := stack[len(stack)-1]
 					stack = stack[:len(stack)-1]
 					c := &AKECase{VA: vp[0], VB: vp[1], Trigger: 5, Who: who, Seed: form, Choices: prefix}
